@@ -6,6 +6,7 @@ package grpcmux
 import (
 	"io"
 	"net"
+	"time"
 
 	"github.com/hashicorp/yamux"
 )
@@ -43,6 +44,28 @@ func (b *blockedClientListener) Addr() net.Addr {
 
 func (b *blockedClientListener) Close() error {
 	// We don't close the session, the client muxer is responsible for that.
+	//
+	// A knock that was acknowledged but never followed by an Accept has
+	// announced a stream that nobody is going to take any more. Left in the
+	// session it would be handed to the next listener that is unblocked, which
+	// is the listener of another ID, in place of that listener's own stream.
+	// Take it out of the session instead.
+	select {
+	case <-b.waitCh:
+		discarded := make(chan struct{})
+		go func() {
+			defer close(discarded)
+			if conn, err := b.session.Accept(); err == nil {
+				_ = conn.Close()
+			}
+		}()
+		// The stream is normally there already, or one round trip away.
+		select {
+		case <-discarded:
+		case <-time.After(100 * time.Millisecond):
+		}
+	default:
+	}
 	return nil
 }
 
